@@ -706,6 +706,13 @@ class PyExec:
             if name in ('int', 'bool') and len(args) == 1 and not isinstance(args[0], str):
                 out.append((p, as_int(args[0]) if name == 'int' else as_bool(args[0])))
                 continue
+            if name in ('min', 'max') and len(args) >= 2 and all(not isinstance(a, (str, tuple, list)) for a in args):
+                r = as_int(args[0])
+                for a in args[1:]:
+                    b = as_int(a)
+                    r = z3.If(b < r, b, r) if name == 'min' else z3.If(b > r, b, r)
+                out.append((p, r))
+                continue
             if name == 'abs' and len(args) == 1:
                 x = as_int(args[0])
                 out.append((p, z3.If(x >= 0, x, -x)))
